@@ -161,12 +161,14 @@ Qed.
 
 Lemma wf_step s o : wf s -> op_ok o -> wf (ustep s o).
 Proof.
-  intros Hwf Hop. destruct o as [sv t c| |]; cbn [ustep].
+  intros Hwf Hop. destruct o as [sv t c| | |t c]; cbn [ustep].
   - assert (Hw : wf (if sv then save_to_undo_stack s true else s)) by (destruct sv; [apply wf_save|]; exact Hwf).
     destruct Hw as (Hh & Hu & Hr & Hb). unfold wf, set_state, here; cbn [utext ucur ustack rstack ubad].
     repeat split; try assumption; apply Hop.
   - now apply wf_undo.
   - now apply wf_redo.
+  - destruct Hwf as (_ & _ & _ & Hb). unfold wf, here; cbn [utext ucur ustack rstack ubad].
+    repeat split; try apply Hop; try constructor; exact Hb.
 Qed.
 
 Lemma wf_run ops : forall s, wf s -> Forall op_ok ops -> wf (urun s ops).
@@ -191,7 +193,7 @@ Definition hist_inv (g : ust * list snap) : Prop :=
 Lemma hist_inv_step g o : hist_inv g -> hist_inv (gstep g o).
 Proof.
   destruct g as [s past]. unfold hist_inv, gstep; cbn [fst snd]. intros [Hu Hr].
-  destruct o as [sv t c| |]; cbn [ustep].
+  destruct o as [sv t c| | |t c]; cbn [ustep]; [| | |split; constructor].
   - unfold set_state; cbn [ustack rstack]. destruct sv.
     + split; [apply save_subseq; exact Hu|]. rewrite save_rstack. constructor.
     + split; apply subseq_skip; assumption.
@@ -472,9 +474,10 @@ Proof.
   destruct (ustack (save_to_undo_stack s false)); [congruence|discriminate].
 Qed.
 
-Lemma bottom_step s o : wf s -> op_safe s o -> bottom_text (ustep s o) = bottom_text s.
+Lemma bottom_step s o : wf s -> op_safe s o ->
+  bottom_text (ustep s o) = match o with Reset t _ => t | _ => bottom_text s end.
 Proof.
-  intros Hwf Hsafe. destruct o as [sv t c| |]; cbn [ustep].
+  intros Hwf Hsafe. destruct o as [sv t c| | |t c]; cbn [ustep].
   - destruct sv.
     + rewrite bottom_set_state_nonempty by apply save_nonempty. apply bottom_save.
     + cbn [op_safe] in Hsafe. destruct Hsafe as [->|Hne].
@@ -482,15 +485,20 @@ Proof.
       * apply bottom_set_state_nonempty. exact Hne.
   - apply bottom_undo. exact Hwf.
   - apply bottom_redo. exact Hwf.
+  - reflexivity.
 Qed.
 
+(* the bottom of the stack is the text of the last reset *)
 Lemma bottom_run ops : forall s,
-  wf s -> Forall op_ok ops -> ops_safe s ops -> bottom_text (urun s ops) = bottom_text s.
+  wf s -> Forall op_ok ops -> ops_safe s ops ->
+  bottom_text (urun s ops) = session_start (bottom_text s) ops.
 Proof.
   induction ops as [|o ops IH]; intros s Hwf Hok Hsafe; [reflexivity|].
   inversion Hok; subst. destruct Hsafe as [Hs Hrest].
   cbn [urun fold_left]. change (fold_left ustep ops (ustep s o)) with (urun (ustep s o) ops).
-  rewrite IH; [apply bottom_step|apply wf_step| |]; assumption.
+  unfold session_start. cbn [fold_left]. fold (session_start (match o with Reset t' _ => t' | _ => bottom_text s end) ops).
+  rewrite IH; [|apply wf_step; assumption|assumption|assumption].
+  rewrite bottom_step by assumption. reflexivity.
 Qed.
 
 Lemma undo_shrinks s : ustack s <> [] -> (length (ustack (undo s)) < length (ustack s))%nat.
@@ -521,11 +529,39 @@ Theorem reaches_start t c ops k :
   0 <= c <= len t -> Forall op_ok ops -> ops_safe (fresh t c) ops ->
   let s := urun (fresh t c) ops in
   (length (ustack s) <= k)%nat ->
-  utext (iter_op Undo k s) = t.
+  utext (iter_op Undo k s) = session_start t ops.
 Proof.
   intros Hc Hok Hsafe. cbn zeta. intros Hk.
   rewrite undo_all_reaches_bottom; [|apply wf_run; [apply wf_fresh|]; assumption|exact Hk].
   rewrite bottom_run; [reflexivity|apply wf_fresh; exact Hc|exact Hok|exact Hsafe].
+Qed.
+
+(* without a reset in between it is the text the buffer was created with *)
+Lemma session_start_no_reset t ops :
+  Forall (fun o => match o with Reset _ _ => False | _ => True end) ops -> session_start t ops = t.
+Proof.
+  unfold session_start. revert t. induction ops as [|o ops IH]; intros t H; [reflexivity|].
+  inversion H as [|? ? Ho Hrest]; subst. cbn [fold_left]. destruct o; try contradiction; apply IH; exact Hrest.
+Qed.
+
+(* Buffer.reset starts a new session: empty stacks, empty ghost history,
+   whatever happened before *)
+Theorem reset_restarts g t c :
+  gstep g (Reset t c) = (mkust t c [] [] (ubad (fst g)), []).
+Proof. reflexivity. Qed.
+
+Lemma session_start_app t a b : session_start t (a ++ b) = session_start (session_start t a) b.
+Proof. unfold session_start. apply fold_left_app. Qed.
+
+(* ... so everything proved "from a fresh buffer" holds from the last reset on:
+   the run after a reset is a run from a fresh buffer holding the new document *)
+Theorem run_after_reset s t c ops :
+  ubad s = false ->
+  urun s (Reset t c :: ops) = urun (fresh t c) ops /\
+  fold_left gstep (Reset t c :: ops) (s, []) = grun (fresh t c) ops.
+Proof.
+  intros Hb. unfold grun, fresh, urun. cbn [fold_left].
+  unfold gstep at 2. cbn [fst snd ustep]. rewrite Hb. split; reflexivity.
 Qed.
 
 (* the side condition cannot be dropped: an unsnapshotted edit on an empty
